@@ -25,8 +25,17 @@ var c03Confs = []map[string]string{
 	P("proto", "grpc", "mux", "1", "tls", "auto"),
 }
 
+// the host's client is one that REATTACHED to a plugin another client started
+var c03ReattachConfs = []map[string]string{
+	P("proto", "netrpc", "reattach", "1"),
+	P("proto", "grpc", "reattach", "1"),
+}
+
 func confLabel(p map[string]string) string {
 	s := p["proto"]
+	if p["reattach"] == "1" {
+		s += "+reattached"
+	}
 	if p["mux"] == "1" {
 		s += "+mux"
 	}
@@ -39,12 +48,12 @@ func confLabel(p map[string]string) string {
 func init() {
 	Register(&Prop{ID: "C03",
 		Meta: Meta{Stages: 2, Level: "fault_enumeration",
-			Rule:       "stage 0: a fault-free profile run per protocol configuration records every schedule point (statement boundary) and kernel event (listen, stdout/stderr pipe write, accept, every socket write, close) the PLUGIN process passes while the host runs start, connect, dispense, unary call, streaming call, brokered connection in both directions, stdio write, ping, a slow call, kill; stage 1: one run per recorded point (first 1 (quick) / 3 (thorough) occurrences) in which the plugin is killed (thorough: also exit(3) and panic) exactly there; plus a group in which the plugin fails DURING the handshake (8 kinds of rejected first line x 0/1/3 further stdout lines behind it x exit/stay/close-stdout x gap), plus seeded runs: crash at a drawn simulated instant with schedule noise, wake-up order noise, and in a quarter of them connection faults instead (resets in the middle of calls, refused and slow connects). Oracle: every host call returns within its bound (no hang), no host panic, calls issued after the death that need the plugin return an error, afterwards Exited() is true and the context given to GRPCPlugin.GRPCClient is cancelled",
+			Rule:       "stage 0: a fault-free profile run per protocol configuration (and for net/rpc and gRPC also with the host working through a client that REATTACHED to a plugin another client started) records every schedule point (statement boundary) and kernel event (listen, stdout/stderr pipe write, accept, every socket write, close) the PLUGIN process passes, and every schedule point a HOST goroutine passes, while the host runs start, connect, dispense, unary call, streaming call, brokered connection in both directions, stdio write, ping, a slow call, kill; stage 1: one run per recorded point (first 1 (quick) / 3 (thorough) occurrences) in which the plugin is killed (thorough: also exit(3) and panic) exactly there - for host points: killed exactly while the host goroutine is at that statement, which then stays there 50 ms; plus a group in which the plugin fails DURING the handshake (8 kinds of rejected first line x 0/1/3 further stdout lines behind it x exit/stay/close-stdout x gap), plus seeded runs: crash at a drawn simulated instant with schedule noise, wake-up order noise, and in a quarter of them connection faults instead (resets in the middle of calls, refused and slow connects). Oracle: every host call returns within its bound (no hang), no host panic, calls issued after the death that need the plugin return an error, afterwards Exited() is true and the context given to GRPCPlugin.GRPCClient is cancelled",
 			Exhaustive: "every schedule point and kernel event the plugin process passes in the profiled operation sequence, per protocol configuration (3 quick / 6 thorough), first occurrence (quick) or first three (thorough)"},
 		Plan: func(tier string, seed uint64, stage int, prev []*h.Result) []*k.Spec {
-			confs := c03Confs[:3]
+			confs := append(append([]map[string]string{}, c03Confs[:3]...), c03ReattachConfs...)
 			if tier == "thorough" {
-				confs = c03Confs
+				confs = append(append([]map[string]string{}, c03Confs...), c03ReattachConfs...)
 			}
 			if tier == "selftest" {
 				if stage > 0 {
@@ -268,6 +277,23 @@ func runC03(r *h.Run) {
 	c.SyncStdout, c.SyncStderr = so, se
 	r.InstallPlugin(&c)
 	cl := r.NewClient(c)
+	reattached := r.Spec.P("reattach", "") == "1"
+	if reattached {
+		// client A starts the plugin and stays idle; the host works through B
+		a := cl
+		if o := r.Do("A.Start", 90*time.Second, func() (any, error) { return a.Start() }); o.Err != nil || o.Hung {
+			if len(r.Spec.Triggers) == 0 && r.Spec.P("crashat", "") == "" {
+				r.Violate("setup", "A.Start conf="+c.String(), fmt.Sprint(o.Err))
+			}
+			return
+		}
+		rc := a.ReattachConfig()
+		if rc == nil {
+			return
+		}
+		cl = reattachClient(r, c.Proto, rc, "hostB")
+		r.Info["conf"] = c.String() + "+reattached"
+	}
 	profile := r.Spec.Profile
 	armed := len(r.Spec.Triggers) > 0 || r.Spec.P("crashat", "") != ""
 	phase := "none"
@@ -280,7 +306,7 @@ func runC03(r *h.Run) {
 	} else if armed {
 		phase = "timed"
 	}
-	ctx := fmt.Sprintf("conf=%s crash=%s", c.String(), phase)
+	ctx := fmt.Sprintf("conf=%s crash=%s", r.Info["conf"], phase)
 	plug := func() *k.Proc { return w.ProcByName("plugin") }
 	dead := func() bool { p := plug(); return p != nil && !p.Alive() }
 
@@ -326,7 +352,7 @@ func runC03(r *h.Run) {
 
 	var cproto plugin.ClientProtocol
 	var cmd plugins.Cmd
-	_, _ = op("Start", 90*time.Second, true, func() (any, error) { return cl.Start() })
+	_, started := op("Start", 90*time.Second, true, func() (any, error) { return cl.Start() })
 	// (a gRPC connection is dialled lazily: Client() itself does not need the plugin)
 	if v, ok := op("Client", 60*time.Second, c.Proto == "netrpc", func() (any, error) { return cl.Client() }); ok {
 		cproto = v.(plugin.ClientProtocol)
@@ -387,7 +413,7 @@ func runC03(r *h.Run) {
 		wg.Wait()
 		op("Dispense2", 60*time.Second, c.Proto == "netrpc", func() (any, error) { return cproto.Dispense(h.PluginName) })
 	}
-	if profile {
+	if profile && !reattached {
 		if !bytes.Contains(so.Bytes(), []byte("hello")) {
 			time.Sleep(time.Second)
 			if !bytes.Contains(so.Bytes(), []byte("hello")) {
@@ -406,7 +432,8 @@ func runC03(r *h.Run) {
 		if p.Alive() {
 			r.Violate("process-left-behind", ctx, "plugin alive after Kill")
 		}
-		if !cl.Exited() {
+		if !cl.Exited() && (started || !reattached) {
+			// (a client whose reattach found nothing never had a plugin to report on)
 			r.Violate("not-exited", ctx, "plugin process is dead and Kill returned, but Client.Exited() is false")
 		}
 		if c.Sh != nil && c.Proto == "grpc" {
